@@ -53,7 +53,7 @@ def nav(propid, nt_rule):
         rule=NAV_RULE + nt_rule,
         tiers=dict(
             quick=[enum(shards=4, variant='san', env={'VH_ENUM_N': '5'}), rc(25000, shards=6, max_size=300, corpus=['valid_objects']),
-                   fuzz(150000, shards=6, corpus=['valid_objects'])],
+                   fuzz(100000, shards=6, corpus=['valid_objects'])],
             thorough=[enum(shards=12, variant='san', env={'VH_ENUM_N': '6'}), enum(shards=16, variant='plain', tag='plain7', env={'VH_ENUM_N': '7'}),
                       rc(500000, shards=6, max_size=500, corpus=['valid_objects']), fuzz(10000000, shards=10, max_len=1024, corpus=['valid_objects'])],
         ),
